@@ -102,6 +102,12 @@ def _strings(kyupy, lg, res, task):
                     res.violation(f'C15/strings/mv_str2/{s}', {'task': list(task)}, f'mv_str of two patterns = {st!r}')
                 if lg.mv_str(a2, delim='|') != s + '|' + s2:
                     res.violation(f'C15/strings/mv_str-delim/{s}', {'task': list(task)}, 'delim not honoured')
+            # nested form, one pattern per group: the groups stay apart (one row per group), nothing is merged
+            g = lg.mvarray([s], [s2])
+            expg = np.array([list(tup), list(tup[::-1])], dtype=np.uint8)
+            if g.shape != expg.shape or not np.array_equal(g, expg):
+                res.violation(f'C15/strings/mvarray-groups/{s}', {'task': list(task)}, f'mvarray([{s!r}], [{s2!r}]) has shape {g.shape} = {g.tolist()}, expected one row per group {expg.tolist()}')
+            res.count('nested_single_pattern_groups')
         res.sig(('str', s))
     res.samples.append({'string': 'X1-R'[:L], 'mvarray': lg.mvarray('X1-R'[:L]).tolist()})
 
